@@ -182,6 +182,15 @@ def _gen_cfg(r: Rng, ex: str) -> Dict[str, Any]:
     if ex == "rs-mem" and not cfg["rom"] and r.chance(1, 2):
         cfg["readonly"] = [[r.choice([0x10000, 0x30000]), r.choice([0x1000F, 0x300FF])]] \
             if r.chance(1, 2) else [[0x20000, 0x2FFFF]]
+        rn = r.child("nested")
+        if rn.chance(1, 3):
+            # the table may hold nested, duplicate or adjacent ranges (one entry per read-only overlay of a Python
+            # machine, passed through unchanged): the protected set is their union
+            lo, hi = cfg["readonly"][0]
+            mid = lo + (hi - lo) // 2
+            cfg["readonly"] += rn.choice([[[lo + 4, min(hi, lo + 7)]], [[lo, hi]], [[mid, mid + 1], [lo, lo]], [[hi - 1, hi]]])
+            if rn.chance(1, 2):
+                cfg["readonly"] = [cfg["readonly"][-1]] + cfg["readonly"][:-1]
         if r.chance(1, 2):
             # a protected range inside the internal RAM that the mirror window aliases
             cfg["readonly"].append(r.choice([[0xB9000, 0xB90FF], [0xBFFF0, 0xBFFFF], [0xB8000, 0xB8003]]))
